@@ -1,4 +1,5 @@
 """C05 - only an authentic, matching response can answer a query (Accept facet)."""
+import mutators
 import simlib
 
 KEEP = {"init", "call", "sk", "env", "srv", "cbb", "crash"}
@@ -11,4 +12,4 @@ def run(ctx):
     else:
         gens = [{"module": "Gen_C05.tla", "cfg": "Gen_C05_thorough.cfg", "name": "bfs"},
                 {"module": "Gen_C05.tla", "cfg": "Gen_C05_sim.cfg", "name": "sim", "simulate": 2000, "depth": 14}]
-    simlib.engine_check(ctx, gens, FACETS, labels=("c05.",))
+    simlib.engine_check(ctx, gens, FACETS, labels=("c05.",), selftests=mutators.ACCEPT)
